@@ -125,6 +125,15 @@ func noDiscovery(set []kmip.ProtocolVersion) c13server {
 // c13Cell runs one configuration: dial + one follow-up request. Returns adopted version (nil if dial failed) and the
 // header version the server saw on the follow-up request.
 func c13Cell(client []kmip.ProtocolVersion, enforce *kmip.ProtocolVersion, srv c13server) (adopted *kmip.ProtocolVersion, seen *kmip.ProtocolVersion, dialErr error, panicked any) {
+	opts := []kmipclient.Option{kmipclient.WithKmipVersions(client...)}
+	if enforce != nil {
+		opts = append(opts, kmipclient.EnforceVersion(*enforce))
+	}
+	return c13Dial(opts, srv)
+}
+
+// c13Dial: one DialContext with the given options against srv, plus one follow-up request.
+func c13Dial(cfg []kmipclient.Option, srv c13server) (adopted *kmip.ProtocolVersion, seen *kmip.ProtocolVersion, dialErr error, panicked any) {
 	var mu sync.Mutex
 	done := make(chan struct{})
 	dialer := func(ctx context.Context) (net.Conn, error) {
@@ -152,10 +161,7 @@ func c13Cell(client []kmip.ProtocolVersion, enforce *kmip.ProtocolVersion, srv c
 		}()
 		return a, nil
 	}
-	opts := []kmipclient.Option{kmipclient.WithDialerUnsafe(dialer), kmipclient.WithKmipVersions(client...)}
-	if enforce != nil {
-		opts = append(opts, kmipclient.EnforceVersion(*enforce))
-	}
+	opts := append([]kmipclient.Option{kmipclient.WithDialerUnsafe(dialer)}, cfg...)
 	defer func() {
 		if r := recover(); r != nil {
 			panicked = r
@@ -295,6 +301,54 @@ func runC13(c *vlib.Check) {
 			c.Violation(sig, fmt.Sprintf("adopted %v, highest common version is %v — %s", *adopted, *want, label), rep)
 		case want != nil && (seen == nil || *seen != *adopted):
 			c.Violation("follow-up-header-version", fmt.Sprintf("follow-up request carried %v, adopted %v — %s", seen, *adopted, label), rep)
+		}
+	})
+	// history part: the same Option values reused across two successive Dials (an Option must not carry state from one
+	// Dial to the next): Dial(o1, oB) then Dial(o2, oB) and Dial(oB, o2); the second client's configured set is S2 ∪ SB.
+	type hist struct{ s1, s2, sb int }
+	var hs []hist
+	for s1 := 1; s1 < 32; s1++ {
+		for s2 := 1; s2 < 32; s2++ {
+			for _, sb := range []int{1, 2, 4, 8, 16, 3, 17, 31} {
+				hs = append(hs, hist{s1, s2, sb})
+			}
+		}
+	}
+	vlib.Parallel(len(hs), 0, func(i int) {
+		h := hs[i]
+		srv := scripted("scripted-lists-unoffered", allVersions, []kmip.ProtocolVersion{kmip.V1_4, kmip.V1_3, kmip.V1_2, kmip.V1_1, kmip.V1_0}, false)
+		o1, o2, oB := kmipclient.WithKmipVersions(subset(h.s1)...), kmipclient.WithKmipVersions(subset(h.s2)...), kmipclient.WithKmipVersions(subset(h.sb)...)
+		for order := 0; order < 2; order++ {
+			label := fmt.Sprintf("history: Dial(WithKmipVersions%s, base%s) then Dial(WithKmipVersions%s, same base option) order=%d", vstr(subset(h.s1)), vstr(subset(h.sb)), vstr(subset(h.s2)), order)
+			c.Eval([]byte(label), true)
+			first := []kmipclient.Option{o1, oB}
+			second := []kmipclient.Option{o2, oB}
+			if order == 1 {
+				first, second = []kmipclient.Option{oB, o1}, []kmipclient.Option{oB, o2}
+			}
+			if _, _, _, pv := c13Dial(first, srv); pv != nil {
+				c.Violation("panic:history", fmt.Sprintf("%s: %v", label, pv), map[string]any{"kind": "negotiation-history", "cell": label})
+				continue
+			}
+			adopted, seen, derr, pv := c13Dial(second, srv)
+			rep := map[string]any{"kind": "negotiation-history", "cell": label}
+			if pv != nil {
+				c.Violation("panic:history", fmt.Sprintf("%s: %v", label, pv), rep)
+				continue
+			}
+			want := maxCommon(subset(h.s2|h.sb), srv.versions)
+			switch {
+			case derr != nil:
+				c.Violation("history:dial-failed", fmt.Sprintf("%s: second dial failed: %v", label, derr), rep)
+			case *adopted != *want:
+				sig := "history:not-highest-common"
+				if !containsV(subset(h.s2|h.sb), *adopted) {
+					sig = "history:adopted-version-from-earlier-dial"
+				}
+				c.Violation(sig, fmt.Sprintf("%s: second client adopted %v, its configured set gives %v", label, *adopted, *want), rep)
+			case seen == nil || *seen != *adopted:
+				c.Violation("follow-up-header-version", fmt.Sprintf("%s: follow-up carried %v", label, seen), rep)
+			}
 		}
 	})
 	c.Exhaustive = true
